@@ -93,6 +93,7 @@ let debug = (try Sys.getenv "RAFTABS_DEBUG" <> "" with Not_found -> false)
 let cur_seq = ref 0
 (* term of the leader that last extended the committed log (for the leader-completeness monitor) *)
 let gc_term = ref 0
+let trace_lc_ok = ref true and n_lc_checks = ref 0 and n_lc_failed = ref 0 and n_lc_traces = ref 0
 let prefix_of_log (g : entry list) (l : entry list) =
   let rec go a b = match a, b with
     | [], _ -> true
@@ -118,8 +119,12 @@ let try_label l =
                         (int_ c) (int_ n.cur) (int_ (gcommit_len !st)) !gc_term (List.length n.log)))
    | _ -> ());
   let glen0 = (match l with L_AdvanceCommit _ -> int_ (gcommit_len !st) | _ -> 0) in
+  let lc_ok = (match l with L_BecomeLeader _ | L_AdvanceCommit _ -> lc_label_ok !st l | _ -> true) in
   match apply_label !st l with
   | Some s' -> st := s'; incr n_labels; bump label_hist (label_name l);
+    (* the step conditions of LCChecked.v (leader completeness without the overlap hypothesis) *)
+    (match l with L_BecomeLeader _ | L_AdvanceCommit _ -> incr n_lc_checks; if not lc_ok then (trace_lc_ok := false; incr n_lc_failed;
+       if debug then Printf.printf "  [%d] LC step condition false at %s\n" !cur_seq (label_str l)) | _ -> ());
     (match l with
      | L_AdvanceCommit (c, _) -> if int_ (gcommit_len !st) > glen0 then gc_term := max !gc_term (int_ (node_of !st c).cur)
      | _ -> ());
@@ -516,7 +521,7 @@ let init_trace (e : ev) =
    | (_, _, _, _, _, _, _, _, _, _, _, _, ents) :: _ -> boot_log := ents; boot_len := List.length ents
    | [] -> raise (Reject "no live node in the initial record"));
   e.nlines <- List.map mk_nrec e.nraw;
-  Hashtbl.reset last; Hashtbl.reset dirty; Hashtbl.reset pend_app; Hashtbl.reset precrash; Hashtbl.reset torn; gc_term := 0;
+  Hashtbl.reset last; Hashtbl.reset dirty; Hashtbl.reset pend_app; Hashtbl.reset precrash; Hashtbl.reset torn; gc_term := 0; trace_lc_ok := true;
   let alive = List.filter (fun r -> r.alive) e.nlines in
   (match alive with
    | [] -> raise (Reject "no live node in the initial record")
@@ -595,6 +600,7 @@ let end_trace () =
   (* the hypothesis of the membership-change theorems, evaluated on the voter lists this trace counted majorities over *)
   let nc = int_ (n_configs !st) in
   if nc <= 1 then incr n_fixed;
+  if !trace_lc_ok then incr n_lc_traces else bump skipped "lc_step_condition_false(leader_completeness_theorem_of_LCChecked_not_applicable;checked_by_monitor)";
   if overlap_state !st then incr n_overlap_ok else bump skipped "overlap_hypothesis_not_met(leader_completeness_theorem_not_applicable;checked_by_monitor)"
 
 let hist_str h =
@@ -664,5 +670,5 @@ let () =
       | _ -> ()
       with Failure why -> (if not !rejected then begin rejected := true; incr n_rej;
                              Printf.printf "%s\tREJECT\t-1\tinput\tmalformed trace line (%s)\n" !cur_tid why end));
-  Printf.printf "SUMMARY\ttraces=%d\trejected=%d\tskipped_traces=%d\tevents=%d\tunchecked_events=%d\tabstract_steps=%d\tnode_matches=%d\tapplied_checked=%d\tmessages_checked=%d\tsingle_config_traces=%d\toverlap_ok_traces=%d\tlabels:%s\tevents:%s\tskipped:%s\n"
-    !n_traces !n_rej !n_skip !n_events !unchecked !n_labels !n_matches !n_applied !n_msgs_checked !n_fixed !n_overlap_ok (hist_str label_hist) (hist_str ev_hist) (hist_str skipped)
+  Printf.printf "SUMMARY\ttraces=%d\trejected=%d\tskipped_traces=%d\tevents=%d\tunchecked_events=%d\tabstract_steps=%d\tnode_matches=%d\tapplied_checked=%d\tmessages_checked=%d\tsingle_config_traces=%d\toverlap_ok_traces=%d\tlc_checked_traces=%d\tlc_step_checks=%d\tlc_step_checks_false=%d\tlabels:%s\tevents:%s\tskipped:%s\n"
+    !n_traces !n_rej !n_skip !n_events !unchecked !n_labels !n_matches !n_applied !n_msgs_checked !n_fixed !n_overlap_ok !n_lc_traces !n_lc_checks !n_lc_failed (hist_str label_hist) (hist_str ev_hist) (hist_str skipped)
